@@ -203,6 +203,14 @@ UNITS = {
             "pub fn build(&self) -> Result<Vec<u8>>",
         ],
     },
+    "owned_arith": {
+        "src": "src/types/owned_value.rs",
+        "anchors": ["pub fn eval_arithmetic("],
+    },
+    "dbkey": {
+        "src": "src/database/database.rs",
+        "anchors": ["pub(crate) fn encode_value_as_key<B: crate::encoding::key::KeyBuffer>("],
+    },
 }
 
 PROPS = {
@@ -221,7 +229,7 @@ PROPS = {
         "level_text": "Proof for all inputs of the fixed-width encoders (all pairs of i64, of f64 bit patterns, dates, times, timestamps, timestamptz, intervals, uuids, macaddrs, enums, bools): key order == value order, injectivity, decode(encode(x) ++ anything) == x, documented prefix ranking across types, shared ZERO key as the only int/float collision. TEXT/BLOB escape codec: bounded Kani twin (len<=3) in this unit; unbounded Verus proof is a separate unit.",
         "level_note": "Trusted: Kani/CBMC; the Vec/SmallVec impls of KeyBuffer (harness supplies a fixed-array KeyBuffer to the real generic encoders); Rust slice Ord as the meaning of bytewise comparison. Nested array/tuple/range/json encoders are not covered.",
         "technique": "Kani full-domain Hoare triples on the real generic encoders/decoder + Verus loop-invariant proof of the escape codec on mechanically extracted functions",
-        "kani_units": ["key"],
+        "kani_units": ["key", "dbkey"],
         "verus_units": ["key_escape"],
         "explanation": "",
         "assumptions": ["Verus unit key_escape: the real `impl KeyBuffer for Vec<u8>` / `SmallVec` are assumed to satisfy the trait contract (push appends one byte, extend_from_slice appends the slice)"],
@@ -281,7 +289,7 @@ PROPS = {
         "level_text": "Proof for the calendar kernels of the date functions (shared with C41: date_to_days / days_to_date / day_of_week / day_of_year / leap and month-length rules follow the proleptic Gregorian calendar for every date of years 1..9999) and for integer arithmetic in the expression evaluator (CompiledPredicate::eval_binary_op +,-,*,/,%,<<,>> and unary minus over all i64 pairs: exact result when representable, NULL on division by zero, NULL in => NULL out). Partial: string functions, floating-point functions, CAST, control flow and text rendering are not covered.",
         "level_note": "Partial. Open known finding: integer overflow (a+b, a-b, a*b, i64::MIN / -1, i64::MIN % -1, pow) panics in debug builds / wraps in release instead of reporting an error. str-level reasoning is outside both back ends.",
         "technique": "Kani full-domain Hoare triples on the real arithmetic and calendar kernels",
-        "kani_units": ["predicate", "datetime"],
+        "kani_units": ["predicate", "datetime", "owned_arith"],
         "explanation": "",
     },
     "C34": {
